@@ -63,6 +63,20 @@ def case_periodic(case):
     # combined shift along all axes
     tot = sum(period[i] * A[:, i] for i in range(d))
     r.close("f(x + sum_i period_i axis_i) == f(x)", np.array(srf(pos + tot[:, None]), dtype=float), base, rtol=1e-9, atol=1e-9 * amp * np.sqrt(np.prod(mode_no)))
+    # a single anisotropy ratio changed in place (dim 3: the other one stays): periodic for the new setting and
+    # equal to a freshly built generator
+    if d == 3:
+        srf_s = gs.SRF(genhist.make_model(ref), generator="Fourier", period=case["period"], mode_no=case["mode_no"], seed=case["seed"])
+        srf_s(pos)
+        ref_s = dict(ref, anis=[ref["anis"][0], 1.7 if abs(ref["anis"][1] - 1.7) > 1e-9 else 0.6])
+        srf_s.model.anis = ref_s["anis"]
+        bs = np.array(srf_s(pos), dtype=float)
+        fresh_s = gs.SRF(genhist.make_model(ref_s), generator="Fourier", period=case["period"], mode_no=case["mode_no"], seed=case["seed"])
+        r.close("after changing one anisotropy ratio in place: field == freshly built generator", bs, np.array(fresh_s(pos), dtype=float), rtol=1e-9, atol=1e-9 * amp * np.sqrt(np.prod(mode_no)))
+        As = genhist.main_axes(ref_s)
+        for i in range(d):
+            sh = pos + (period[i] * As[:, i])[:, None]
+            r.close("after changing one anisotropy ratio in place: f(x + period_i * axis_i) == f(x)", np.array(srf_s(sh), dtype=float), bs, rtol=1e-9, atol=1e-9 * amp * np.sqrt(np.prod(mode_no)), axis=i)
     # one model change (length scale only: period, mode counts and anisotropy stay): still periodic
     srf.model.len_scale = 1.37 * ref["len_scale"]
     base2 = np.array(srf(pos), dtype=float)
